@@ -177,6 +177,43 @@ def run(ctx, out):
         where = 'union member' if len(og) == nstr - 1 else 'several places'
         out.violation(f'C18:reach:into_data:{nstr - len(og)}-missing', f'call-level handler for str was applied at {len(og)} of {nstr} string positions when serialising '
                       f'({where}): {d!r}', {'data': repr(d)})
+    # ---- three nesting levels, handler objects shared between levels (inherited from a common base or reused):
+    #      the nearest enclosing dataclass that has a handler for the type wins, whatever the outer ones hold
+    def hfor(tag):
+        def h(ty, args, *, handlers):
+            if ty is str and len(args) == 0:
+                return Mark(tag)
+            return NotImplemented
+        return h
+    hA, hB = hfor('A'), hfor('B')
+    for outer_h, mid_h, inner_h in itertools.product((None, 'A', 'B', 'AB', 'BA'), repeat=3):
+        n += 1
+        def opts(code):
+            if code is None:
+                return {}
+            return {'custom': [{'A': hA, 'B': hB}[ch] for ch in code]}
+        for wrap in (lambda T: T, lambda T: t.List[T], lambda T: t.Optional[T]):
+            In3 = pytypes.new_class(terms.fresh_name('L3'), (pane.PaneBase,), opts(inner_h), lambda d: d.update({'__annotations__': {'s': str}}))
+            Mid3 = pytypes.new_class(terms.fresh_name('L2'), (pane.PaneBase,), opts(mid_h), lambda d: d.update({'__annotations__': {'inner': wrap(In3)}}))
+            Out3 = pytypes.new_class(terms.fresh_name('L1'), (pane.PaneBase,), opts(outer_h), lambda d: d.update({'__annotations__': {'mid': wrap(Mid3)}}))
+            terms.KEEP += [In3, Mid3, Out3]
+            want = next((code[0] for code in (inner_h, mid_h, outer_h) if code), 'builtin')
+            leaf = {'s': 'v'}
+            mid = {'inner': [leaf] if wrap(int) is not int and t.get_origin(wrap(int)) is list else leaf}
+            data = {'mid': [mid] if t.get_origin(wrap(int)) is list else mid}
+            try:
+                x = pane.from_data(data, Out3)
+                tags = find_tags(x, [])
+                got = tags[0][1] if tags else 'builtin'
+                d3 = pane.into_data(x, Out3)
+                otags = [tg for tg in find_tags(d3, []) if tg[0] == 'out']
+                ogot = otags[0][1] if otags else 'builtin'
+            except Exception as e:
+                out.violation(f'C18:three-levels:{type(e).__name__}', f'outer={outer_h} mid={mid_h} inner={inner_h}: {type(e).__name__}: {str(e)[:200]}', {})
+                continue
+            if got != want or ogot != want:
+                out.violation('C18:nearest-class-wins', f'handlers outer={outer_h} mid={mid_h} inner={inner_h} (A, B are shared handler objects): converter used for the '
+                              f'innermost str field is {got!r} on input and {ogot!r} on output, expected {want!r}', {'outer': outer_h, 'mid': mid_h, 'inner': inner_h})
     # ---- handler forms
     n += 3
     if pane.from_data(['a'], t.List[str], custom={list: Mark('m')}) != [('in', 'm', 'a')] if False else False:
